@@ -116,13 +116,13 @@ class Repo:
         """See engine/normalize.py: undo private renames, inline new private helpers, rewrite `a if c else b` statements."""
         from . import normalize
         inv = normalize.load_inventory()
-        cinv = normalize.load_constant_inventory()
-        if cinv is not None:
-            normalize.fold_new_constants(self.modules, cinv, self.norm_log)
         normalize.expand_local_predicates(self.modules, self.norm_log)
         normalize.unroll_constant_loops(self.modules, self.norm_log)
         normalize.desugar_ifexp(self.modules)
         normalize.decision_tables(self.modules, self.norm_log)
+        cinv = normalize.load_constant_inventory()
+        if cinv is not None:
+            normalize.fold_new_constants(self.modules, cinv, self.norm_log)
         normalize.first_truthy_chains(self.modules, self.norm_log)
         normalize.project_records(self.modules, self.norm_log)
         if inv is not None:
